@@ -191,6 +191,12 @@ func Persist(w *world.World, raws []json.RawMessage) ([]interface{}, error) {
 		// the bytes Bytes() returned, after every other entry has been encoded too
 		got2, err2, pan2 := decode(b.data)
 		stable := err2 == nil && !pan2 && sameSnap(b.snap, got2)
+		// decoded five seconds later: the same entry (the time stamps are absolute)
+		w.SetClock(w.Clock() + 5)
+		got3, err3, pan3 := decode(b.copy)
+		later := err3 == nil && !pan3 && sameSnap(b.snap, got3)
+		w.SetClock(w.Clock() - 5)
+		flips := 0
 		cutsErr, panics := 0, 0
 		for n := 0; n < len(b.copy); n++ {
 			_, err, pan := decode(b.copy[:n])
@@ -215,7 +221,7 @@ func Persist(w *world.World, raws []json.RawMessage) ([]interface{}, error) {
 		}
 	mutate:
 		for _, p := range positions {
-			for variant := 0; variant < 3; variant++ {
+			for variant := 0; variant < 4; variant++ {
 				if panics > 0 || maxAlloc > uint64(65536+64*len(b.copy)) {
 					break mutate // already beyond what the property allows: no need to go on with this entry
 				}
@@ -227,22 +233,26 @@ func Persist(w *world.World, raws []json.RawMessage) ([]interface{}, error) {
 					m[p] ^= 0x04 // bit 26 of a big-endian 32-bit field starting here
 				case 2:
 					m[p+3] ^= 0x80
+				case 3:
+					m[p] = '(' // inside a text field: e.g. a content type filter that no longer compiles
 				}
 				runtime.ReadMemStats(&ms)
 				before := ms.TotalAlloc
-				_, _, pan := decode(m)
+				_, merr, pan := decode(m)
 				runtime.ReadMemStats(&ms)
 				if d := ms.TotalAlloc - before; d > maxAlloc {
 					maxAlloc = d
 				}
 				if pan {
 					panics++
+				} else if _, merr2, pan2 := decode(m); !pan2 && (merr == nil) != (merr2 == nil) {
+					flips++ // the same bytes decoded twice in a row: accepted once, rejected once
 				}
 				mutations++
 			}
 		}
 		out = append(out, map[string]interface{}{"case": b.raw, "i": i, "same": same, "stable": stable, "len": len(b.copy),
-			"cutsErr": cutsErr, "panics": panics, "hangs": 0, "maxAlloc": maxAlloc, "mutations": mutations})
+			"cutsErr": cutsErr, "panics": panics, "hangs": 0, "maxAlloc": maxAlloc, "mutations": mutations, "later": later, "flips": flips})
 	}
 	return out, nil
 }
